@@ -17,9 +17,9 @@ RULE = ("(shipped) the 16 shipped .itp files; (generated) topology texts: option
         "#define, blanks), 1..8 sections in any order from realistic names and random identifiers, section names "
         "repeated with probability 1/2, content lines valid for the typed sections (moleculetype, atoms, bonds, "
         "constraints, pairs) and free tokens elsewhere, each with no / one / empty / blank-only / multiple trailing "
-        "comments (comment text printable ASCII, may start with '#'), comment-only, blank and preprocessor lines, "
+        "comments (comment text printable ASCII, may start with '#', may contain bracketed words or non-ASCII characters), comment-only, blank and preprocessor lines, "
         "tabs, last line with or without newline; read from a path or an open file, written to a fresh path, over the "
-        "file it was read from, or over a longer existing file. Non-trivial = a repeated section name or a content line with an "
+        "file it was read from, or over a longer existing file; LF or CRLF line ends. Non-trivial = a repeated section name or a content line with an "
         "empty or multiple trailing comment. Distinct = sha1 of the text.")
 ASSUMPTIONS = [
     "ASCII files; preprocessor lines start in column 0, or are indented inside sections whose lines the library does "
@@ -33,8 +33,11 @@ REAL = ["moleculetype", "atoms", "bonds", "pairs", "angles", "dihedrals", "const
         "settles", "position_restraints", "defaults", "atomtypes", "system", "molecules", "virtual_sites2"]
 IDENT = st.text(st.sampled_from("abcdefghijklmnopqrstuvwxyz_0123456789"), min_size=2, max_size=12).filter(
     lambda s: s not in "moleculetype" and s != "header")
-COMMENT_TEXT = st.text(st.characters(min_codepoint=32, max_codepoint=126, blacklist_characters=";"),
-                       min_size=1, max_size=20).filter(lambda s: s.strip() != "")
+COMMENT_TEXT = st.one_of(
+    st.text(st.characters(min_codepoint=32, max_codepoint=126, blacklist_characters=";"),
+            min_size=1, max_size=20).filter(lambda s: s.strip() != ""),
+    st.sampled_from(["b0 [nm]  kb [kJ mol-1 nm-2]", "[ bonds ]", "[dihedrals]", "see ref. [12]", "charge in [e]",
+                     "\u00c5ngstr\u00f6m units", "\u03b1-carbon", "25 \u00b0C", "[ atoms ] \u2013 kept"]))
 WORD = st.text(st.characters(min_codepoint=33, max_codepoint=126, blacklist_characters=";#[]"),
                min_size=1, max_size=8)
 
@@ -150,7 +153,8 @@ def text_case(draw):
     text = "\n".join(out)
     if draw(st.booleans()) or not out[-1].strip():
         text += "\n"
-    return {"text": text, "molecule": molecule, "stats": sorted(stats), "mode": draw(st.sampled_from(MODES))}
+    return {"text": text, "molecule": molecule, "stats": sorted(stats), "mode": draw(st.sampled_from(MODES)),
+            "crlf": draw(st.integers(0, 5)) == 0}
 
 
 def structure(text):
@@ -179,7 +183,7 @@ MODES = ["separate", "separate", "inplace", "fileobj", "over-longer"]
 
 
 def roundtrip(text_path, is_molecule, label, mode="separate"):
-    with open(text_path) as f:
+    with open(text_path, encoding="utf-8") as f:
         original = f.read()
     s0 = structure(original)
     out1 = env.fresh_path(".itp")
@@ -190,15 +194,15 @@ def roundtrip(text_path, is_molecule, label, mode="separate"):
         itp = lib("read", ItpFile, text_path)
     if mode == "inplace":                       # written back over the file it was read from
         keep = env.fresh_path(".itp")
-        with open(keep, "w") as f:
+        with open(keep, "w", encoding="utf-8") as f:
             f.write(original)
         out1, text_path = text_path, keep
     elif mode == "over-longer":                 # the output path already holds a longer file
-        with open(out1, "w") as f:
+        with open(out1, "w", encoding="utf-8") as f:
             f.write(original + "\n[ bonds ]\n" + "1 2 1 0.1 1000 ; left over\n" * 50)
     lib("write", itp.write, out1)
     del itp
-    with open(out1) as f:
+    with open(out1, encoding="utf-8") as f:
         written = f.read()
     s1 = structure(written)
     if s0 != s1:
@@ -210,7 +214,7 @@ def roundtrip(text_path, is_molecule, label, mode="separate"):
     itp2 = lib("re-read", ItpFile, out1)
     lib("write-again", itp2.write, out2)
     del itp2
-    with open(out2) as f:
+    with open(out2, encoding="utf-8") as f:
         s2 = structure(f.read())
     if s2 != s1:
         raise PropertyViolation("stable", "%s: second write differs: %s" % (label, describe_diff(s1, s2)))
@@ -251,14 +255,21 @@ def classify(original, diff):
 
 
 def check_text(case):
+    if not case["text"].isascii():
+        import locale
+        if locale.getpreferredencoding(False).lower().replace("-", "") != "utf8":
+            # the library writes in the locale's encoding: non-ASCII comments only under a UTF-8 locale
+            case = dict(case, text=case["text"].encode("ascii", "replace").decode("ascii").replace("?", "x"))
     path = env.fresh_path(".itp")
-    with open(path, "w") as f:
+    with open(path, "w", newline="\r\n" if case.get("crlf") else None, encoding="utf-8") as f:
         f.write(case["text"])
     mode = case.get("mode", "separate")
     s0 = roundtrip(path, case["molecule"], "generated file" + ("" if mode == "separate" else " (%s)" % mode), mode)
     stats = set(case["stats"])
     nt = bool(stats & {"repeat", "empty-comment", "multi-comment"})
-    return {"nontrivial": nt, "classes": ["molecule" if case["molecule"] else "fragment", "mode:" + mode] + sorted(stats),
+    return {"nontrivial": nt, "classes": ["molecule" if case["molecule"] else "fragment", "mode:" + mode,
+                                          "crlf" if case.get("crlf") else "lf",
+                                          "ascii" if case["text"].isascii() else "non-ascii"] + sorted(stats),
             "sample": {"text": case["text"][:700], "stats": case["stats"]}}
 
 
